@@ -184,11 +184,18 @@ def is_docstring_stmt(st):
     return isinstance(st, ast.Expr) and isinstance(st.value, ast.Constant) and isinstance(st.value.value, str)
 
 
+def is_noop_stmt(st):
+    """An expression statement that only evaluates a constant (docstring, `None`, `...`) or `pass`."""
+    return isinstance(st, ast.Pass) or (isinstance(st, ast.Expr) and isinstance(st.value, ast.Constant))
+
+
 def body_wo_doc(fn):
+    """Body of a def without its docstring and without no-op statements."""
     body = list(fn.body)
     if body and is_docstring_stmt(body[0]):
         body = body[1:]
-    return body
+    real = [st for st in body if not is_noop_stmt(st)]
+    return real if real or not body else real
 
 
 def is_generator(fn):
